@@ -288,6 +288,25 @@ func Spec(big int) []Node {
 			ns = append(ns, Node{Rel: fmt.Sprintf("many/d%02d/f%03d", d, f), Kind: "file", Mode: 0o644, Data: []byte(fmt.Sprintf("file %d of directory %d\n", f, d))})
 		}
 	}
+	// one directory with more entries than a directory read returns at once; a chain of DeepLevels directories;
+	// files of one name in sibling directories
+	ns = append(ns, Node{Rel: "wide", Kind: "dir", Mode: 0o755})
+	for f := 0; f < WideFiles; f++ {
+		ns = append(ns, Node{Rel: fmt.Sprintf("wide/w%04d", f), Kind: "file", Mode: 0o644, Data: []byte(fmt.Sprintf("wide %d\n", f))})
+	}
+	deep := "deep"
+	ns = append(ns, Node{Rel: deep, Kind: "dir", Mode: 0o755})
+	for l := 0; l < DeepLevels; l++ {
+		deep += fmt.Sprintf("/l%d", l)
+		ns = append(ns, Node{Rel: deep, Kind: "dir", Mode: 0o755})
+	}
+	ns = append(ns, Node{Rel: deep + "/bottom", Kind: "file", Mode: 0o644, Data: text("bottom", 40)})
+	ns = append(ns, Node{Rel: "samename", Kind: "dir", Mode: 0o755})
+	for _, a := range []string{"amd64", "arm64", "riscv64"} {
+		ns = append(ns, Node{Rel: "samename/" + a, Kind: "dir", Mode: 0o755})
+		ns = append(ns, Node{Rel: "samename/" + a + "/libfoo.so", Kind: "file", Mode: 0o755, Data: text("libfoo "+a, 50)})
+		ns = append(ns, Node{Rel: "samename/" + a + "/only-" + a, Kind: "file", Mode: 0o644, Data: text("only "+a, 20)})
+	}
 	ns = append(ns, Node{Rel: "huge", Kind: "dir", Mode: 0o755})
 	ns = append(ns, Node{Rel: "huge/noise.bin", Kind: "file", Mode: 0o644, Data: Noise(9<<20+5, 777)})
 	ns = append(ns, Node{Rel: "huge/zeros.bin", Kind: "file", Mode: 0o644, Data: make([]byte, 12<<20)})
@@ -303,9 +322,20 @@ func Spec(big int) []Node {
 
 // ManyDirs x ManyFiles small files make up the many/ fixture tree.
 const (
-	ManyDirs  = 20
-	ManyFiles = 100
+	ManyDirs   = 20
+	ManyFiles  = 100
+	WideFiles  = 1500
+	DeepLevels = 40
 )
+
+// DeepPath is the path of the deep/ chain below the fixture root down to level n.
+func DeepPath(n int) string {
+	p := "deep"
+	for l := 0; l < n; l++ {
+		p += fmt.Sprintf("/l%d", l)
+	}
+	return p
+}
 
 // Materialize creates the nodes under root (root must not exist or be empty).
 func Materialize(root string, nodes []Node) (*Tree, error) {
